@@ -119,11 +119,21 @@ def discrete_contacts(repo, rep):
         if ok:
             c = recs[0]
             tup = c.stmt.value.args[0]
-            il = [l for l in c.loops if isinstance(l, ast.For) and _k(l.iter) in ("infector.keys()", "infector")]
+            il = [l for l in c.loops if isinstance(l, ast.For) and _k(l.iter) in ("infector.keys()", "infector", "infector.items()")]
             ok = isinstance(tup, ast.Tuple) and len(tup.elts) == 3 and len(il) == 1 and "return_full_data" in _fact_set(c)
             if ok:
-                v = _k(il[0].target)
-                ok = _k(tup.elts[0]) == "t[-1]" and _k(tup.elts[1]) == "random.choice(infector[%s])" % v and _k(tup.elts[2]) == v
+                if _k(il[0].iter) == "infector.items()" and isinstance(il[0].target, ast.Tuple) and len(il[0].target.elts) == 2:
+                    v = _k(il[0].target.elts[0])
+                    srcs = (_k(il[0].target.elts[1]), "infector[%s]" % v)
+                else:
+                    v = _k(il[0].target)
+                    srcs = ("infector[%s]" % v,)
+                # the contact step: t[-1], or a local bound to t[-1] in this iteration before t is advanced
+                step_ok = _k(tup.elts[0]) == "t[-1]"
+                if not step_ok and isinstance(tup.elts[0], ast.Name):
+                    defs_ = [s2 for s2 in lp.body if isinstance(s2, ast.Assign) and _k(s2.targets[0]) == tup.elts[0].id]
+                    step_ok = len(defs_) == 1 and _k(defs_[0].value) == "t[-1]"
+                ok = step_ok and _k(tup.elts[1]) in ["random.choice(%s)" % x for x in srcs] and _k(tup.elts[2]) == v
                 # recorded before the time series is advanced
                 tapp = [s for s in lp.body if _k(s).startswith("t.append(")]
                 top = [s for s in lp.body if any(x is c.stmt for x in ast.walk(s))][0]
